@@ -39,19 +39,33 @@ def run(ctx):
         for n in w.names:
             w.feed(n, rng)
         init = w.project()
-        cur = init
         steps = []
         last_mix = None
-        for _ in range(12):
-            if rng.random() < 0.25:
-                # re-feed a slot (not judged): new trace segment
-                break
+        seg = 0
+        for _ in range(14):
+            u = rng.random()
+            if u < 0.2:
+                # state shaping (not judged): re-feed a slot, or make one slot a part of another and separate it out next;
+                # the history continues as a new trace from the logged state
+                if steps:
+                    traces.append(dict(id='E%d_%d' % (k, seg), mode='seq', init=init, steps=steps))
+                    seg += 1
+                x, y = rng.sample(w.names, 2)
+                part = u < 0.12 and w.feed_part(y, x, rng)
+                if not part:
+                    w.feed(x, rng)
+                init, steps, last_mix = w.project(), [], None
+                if part:
+                    a = dict(x=x, y=y, reach=w.sep_reach(x, y))
+                    obs = w.apply('separate', a)
+                    steps.append(dict(op='separate', a=a, post=w.project(), obs=obs))
+                continue
             op, a = de.random_op(rng, w, last_mix=last_mix)
             last_mix = (a['r'], a['ins']) if op == 'mix' and a['r'] not in a['ins'] else None
             obs = w.apply(op, a)
-            cur = w.project()
-            steps.append(dict(op=op, a=a, post=cur, obs=obs))
-        traces.append(dict(id='E%d' % k, mode='seq', init=init, steps=steps))
+            steps.append(dict(op=op, a=a, post=w.project(), obs=obs))
+        if steps:
+            traces.append(dict(id='E%d_%d' % (k, seg), mode='seq', init=init, steps=steps))
     defs, cfgc = de.tla_constants()
     stats = dict(ok=0, ooc=0, ops={})
     todo = traces
